@@ -136,6 +136,9 @@ class Check:
                       f'observed={str(fs[0]["observed"])[:200]} {fs[0]["what"]}', flush=True)
             if len(groups) > 40:
                 print(f'  ... {len(groups) - 40} more failure classes not written', flush=True)
+            if os.environ.get('VERIF_DUMP_FAILURES'):      # development aid: every class with one instance
+                with open(os.environ['VERIF_DUMP_FAILURES'], 'w') as fh:
+                    json.dump([dict(fs[0], class_size=len(fs)) for fs in groups.values()], fh, default=str)
         cov = self.coverage
         if not cov.get('evaluations'):
             cov['evaluations'] = cov.get('transitions', 0)
